@@ -19,3 +19,9 @@ func vSharedCache() ResolutionCache {
 	vShare(c, "cache")
 	return c
 }
+
+func vSharedOpts() *ExpandOptions {
+	o := &ExpandOptions{}
+	vShare(o, "opts")
+	return o
+}
